@@ -6,10 +6,11 @@
    definition is the first Verdaux at vd_aux bytes from the definition.                           */
 #include "vstd_c.h"
 #include "ghost.h"
+int gh_lc_phase_inner, gh_def_called, gh_need_called; unsigned gh_aux_other;
 int gh_lc_phase, gh_chain_bad, gh_cur_valid, gh_aux_called, gh_str_set, gh_str_null, gh_default_set, gh_default_val;
 unsigned gh_versym, gh_cur_ndx, gh_cur_next, gh_cur_aux, gh_match_ndx, gh_match_aux;
 unsigned long gh_size, gh_getverdef_calls, gh_expected_off, gh_cur_off, gh_aux_off, gh_match_off;
-int w_verdef_lookup(void);
+int w_verdef_lookup(void); int w_get_version_for_symbol(unsigned long index, int get_def); int w_verneed_lookup(int null_args);
 #define POST(c) __CPROVER_assert(c, "postcondition: " #c)
 void h_verdef_lookup(void)
 {
@@ -24,4 +25,30 @@ void h_verdef_lookup(void)
   POST(r ==> (gh_default_val != 0) == ((gh_versym & 0x8000) == 0)); /* hidden bit <=> not the default version */
   POST(!r ==> (gh_str_set == 0 && gh_default_set == 0));
   CANARY_h_verdef_lookup;
+}
+void h_verneed_lookup(void)
+{
+  gh_versym = nondet_unsigned() & 0xffff; gh_size = nondet_ulong(); __CPROVER_assume(gh_size <= 0x7fffffffUL);
+  gh_str_set = 0; gh_str_null = 0; gh_default_set = 0; gh_default_val = 0; gh_lc_phase = nondet_int(); gh_lc_phase_inner = nondet_int();
+  int in_null_args = nondet_int() != 0;
+  int r = w_verneed_lookup(in_null_args);
+  POST(in_null_args ==> !r);
+  POST(r ==> (gh_str_set == 1 && gh_default_set == 1));
+  POST(r ==> gh_aux_other == gh_versym);                            /* the requirement recorded is the one the symbol names */
+  POST(r ==> (gh_default_val != 0) == ((gh_versym & 0x8000) == 0));
+  POST(!r ==> (gh_str_set == 0 && gh_default_set == 0));
+  CANARY_h_verneed_lookup;
+}
+void h_get_version_for_symbol(void)
+{
+  gh_versym = nondet_unsigned() & 0xffff; gh_size = nondet_ulong(); gh_def_called = 0; gh_need_called = 0;
+  unsigned long in_index = nondet_ulong(); int in_def = nondet_int() != 0;
+  int r = w_get_version_for_symbol(in_index, in_def);
+  /* Versym 0 (local) and 1 (global, unversioned) carry no version; neither does the hidden base version 0x8001 */
+  POST(gh_versym <= 1 ==> (!r && !gh_def_called && !gh_need_called));
+  POST((in_def && gh_versym == 0x8001) ==> (!r && !gh_def_called));
+  POST(in_def ==> !gh_need_called);                  /* a defined symbol's version comes from the definitions */
+  POST(!in_def ==> !gh_def_called);
+  POST(r ==> (gh_def_called || gh_need_called));
+  CANARY_h_get_version_for_symbol;
 }
